@@ -83,10 +83,22 @@ fn build_attrs(c: &Value) -> Arc<Vec<Attribute>> {
         }
         v.push(Attribute::new_with_bin(Attribute::CLUSTER_LIST, b).unwrap());
     }
+    // other extended communities (8 octets each, hex) come first, the MAC Mobility community (type 0x06, sub-type 0x00) last
+    let mut ec: Vec<u8> = Vec::new();
+    if let Some(xs) = c["xc"].as_array() {
+        for x in xs {
+            let h = x.as_str().unwrap();
+            for i in (0..h.len()).step_by(2) {
+                ec.push(u8::from_str_radix(&h[i..i + 2], 16).unwrap());
+            }
+        }
+    }
     let mm = c["mm"].as_u64().unwrap();
     if mm > 0 {
-        let mut ec = vec![0x06u8, 0x00, 0x00, 0x00];
+        ec.extend_from_slice(&[0x06u8, 0x00, 0x00, 0x00]);
         ec.extend_from_slice(&((mm - 1) as u32).to_be_bytes());
+    }
+    if !ec.is_empty() {
         v.push(Attribute::new_with_bin(Attribute::EXTENDED_COMMUNITY, ec).unwrap());
     }
     Arc::new(v)
